@@ -21,7 +21,7 @@ RULE = ('cases are constructor inputs: (objects, properties, rows) triples and s
         'single corruption instance x every ordered pair of corruption kinds; Hypothesis part: fill families with '
         'cells drawn from truthy / falsy values of several types. Oracle: an independent predicate listing the broken '
         'rules of the property text; no broken rule <=> construction succeeds and objects / properties / bools '
-        'reproduce the input (cells by truthiness; a stored lattice is attached exactly when given); otherwise '
+        'reproduce the input (cells by truthiness); otherwise '
         'ValueError exactly and nothing is returned. Non-trivial: exactly one broken rule, or a valid input with '
         'non-bool cells / unsorted rows / extra keys / tuples.')
 ASSUMPTIONS = ['validity predicate restates the rules in the property text', 'column indexes are ints, names are hashable']
@@ -305,9 +305,6 @@ def run_input(inp, ctx, applied=()):
         m = len(dd['properties'])
         want = (tuple(dd['objects']), tuple(dd['properties']),
                 [tuple(j in set(r) for j in range(m)) for r in dd['context']])
-        ctx.check(('lattice' in c.__dict__) == (dd.get('lattice') is not None and not inp.get('ignore_lattice')),
-                  site + '/lattice-presence', case,
-                  'stored lattice attached / missing contrary to the input')
     got = (c.objects, c.properties, c.bools)
     ctx.check(got == want, site + '/representation', case, lambda: f'accepted input is represented as {got!r}, want {want!r}')
 
